@@ -60,6 +60,46 @@ pub fn scenario(pool_size: u32, progs: &[&str], admin: &[&str], per_pool: bool) 
     }
 }
 
+/// pool_size 1: c0 holds the only server inside a transaction, c1's first statement is already waiting
+/// for a server when PAUSE arrives, then c0 commits: c1 must not start before RESUME. (Found by the
+/// thorough tier at three deviations; scripted here so that the quick tier reaches it at none.)
+pub fn queued_scenario(per_pool: bool) -> Scenario {
+    use crate::world::Cond;
+    let mut cfg = Cfg::one(PoolCfg::simple("db", "transaction", 1, 1, 0));
+    let mut p2 = PoolCfg::simple("db2", "transaction", 1, 1, 0);
+    p2.shards[0].servers[0].0 = "pg-other".into();
+    cfg.pools.push(p2);
+    let servers = cfg.servers();
+    let scope = |a: &str| if per_pool { format!("{} db,alice", a) } else { a.to_string() };
+    let c0 = Script::new("c0")
+        .connect("alice", "db", Some("alicepw"))
+        .q(&format!("BEGIN /*{}*/", tag(0, 0, 0)))
+        .q(&format!("SELECT 1 /*{}*/", tag(0, 0, 1)))
+        .wait(Cond::ActorAt(3, 2))
+        .q(&format!("COMMIT /*{}*/", tag(0, 0, 2)))
+        .terminate();
+    let c1 = Script::new("c1")
+        .connect("alice", "db", Some("alicepw"))
+        .wait(Cond::ActorAt(0, 5))
+        .q(&format!("SELECT 1 /*{}*/", tag(1, 0, 0)))
+        .q(&format!("SELECT 2 /*{}*/", tag(1, 1, 0)))
+        .terminate();
+    let other = client(2, "db2", "autos");
+    let admin = env(
+        "admin",
+        vec![Step::Wait(Cond::ActorAt(1, 3)), Step::Admin(scope("PAUSE")), Step::Wait(Cond::ActorsDone(vec![0])), Step::Admin(scope("RESUME"))],
+    );
+    Scenario {
+        name: format!("C16 pool_size=1 progs=holder+queued admin=PAUSE;RESUME scope={}", if per_pool { "pool" } else { "global" }),
+        toml: cfg.toml(),
+        alt_tomls: vec![],
+        servers,
+        actors: vec![c0.actor(), c1.actor(), other.actor(), admin],
+        opts: Opts::default(),
+        meta: serde_json::json!({"nclients": 2, "per_pool": per_pool}),
+    }
+}
+
 pub fn oracle(sc: &Scenario, out: &Outcome) -> Vec<Violation> {
     let log = &out.log;
     let mut vs = Vec::new();
@@ -177,12 +217,14 @@ pub fn build(tier: &str) -> SimCheck {
             }
         }
     }
+    scenarios.push(queued_scenario(false));
+    scenarios.push(queued_scenario(true));
     SimCheck {
         scenarios,
         oracle: Box::new(oracle),
         bound: if thorough { 3 } else { 2 },
         limits: Limits { max_wall_s: if thorough { 2400.0 } else { 55.0 }, ..Default::default() },
-        rule: "scenario = pool_size {1,2} x global / per-pool PAUSE x client programs (2-3 clients of the paused pool with multi-statement and autocommit transactions, one client of another pool) x admin sequence (P;R / P;R;P;R / R;P;R / P;P;R); all schedules with <= bound deviations: PAUSE and RESUME land while clients are idle, arriving, mid-transaction, between transactions or queued for a connection".into(),
+        rule: "scenario = pool_size {1,2} x global / per-pool PAUSE x client programs (2-3 clients of the paused pool with multi-statement and autocommit transactions, one client of another pool) x admin sequence (P;R / P;R;P;R / R;P;R / P;P;R), plus the scripted 'statement already queued for the only server when PAUSE arrives' scenario; all schedules with <= bound deviations: PAUSE and RESUME land while clients are idle, arriving, mid-transaction, between transactions or queued for a connection".into(),
         assumptions: vec!["paused interval = from the PAUSE reply being read by the admin client to the RESUME being sent".into(), "interleavings below await-point granularity are decided by the loom part".into()],
     }
 }
